@@ -16,6 +16,12 @@ impl Core {
         version: Option<[u8; 4]>,
         request_specific: RequestSpecific,
     ) -> (Option<MessageType>, bool) {
+        // A request vetoed by the request filter is dropped before it can have any effect:
+        // a banned requester must not end up in the routing tables either.
+        if !self.server.allows(&request_specific, from) {
+            return (None, false);
+        }
+
         self.maybe_add_node_from_request(
             from,
             version,
